@@ -4,7 +4,7 @@
   seeded.py import <dir> <name>     copy a mutant produced by a seeding agent (patch.diff, demo.py, meta.json)
                                     to /verif/seeded/<name>/ after confirming, in a scratch worktree of /repo:
                                     the demo passes on the clean tree and fails with the patch applied.
-  seeded.py run [<name> ...] [--tier quick|thorough]
+  seeded.py run [<name> ...] [--tier quick|thorough] [--seed N]   (--seed: VERIF_SEED for the check; result-seedN.json)
                                     apply each seeded patch to the scratch worktree, run the check of its
                                     property against it (QV_REPO), undo; record the outcome in
                                     /verif/seeded/<name>/result.json and print a table.
@@ -86,7 +86,7 @@ def cmd_import(src, name):
         drop_wt()
 
 
-def cmd_run(names, tier):
+def cmd_run(names, tier, seed=None):
     make_wt()
     rows = []
     try:
@@ -104,6 +104,8 @@ def cmd_run(names, tier):
                 continue
             t0 = time.time()
             env = dict(os.environ, QV_REPO=WT)
+            if seed is not None:
+                env["VERIF_SEED"] = str(seed)
             r = sh([os.path.join(VERIF, "check"), pid, tier], env=env, cwd=VERIF, timeout=7200)
             undo()
             viol = [l for l in r.stdout.splitlines() if l.startswith("VIOLATION")]
@@ -111,7 +113,8 @@ def cmd_run(names, tier):
             res = {"property": pid, "tier": tier, "exit": r.returncode, "violation_lines": len(viol), "clauses": clauses,
                    "wall_s": round(time.time() - t0, 1), "detected": r.returncode == 1 and bool(viol),
                    "tail": r.stdout.splitlines()[-1:] + r.stderr.splitlines()[-2:]}
-            json.dump(res, open(os.path.join(d, "result.json"), "w"), indent=1)
+            res["seed"] = int(seed or 0)
+            json.dump(res, open(os.path.join(d, "result.json" if seed is None else "result-seed%s.json" % seed), "w"), indent=1)
             rows.append((name, pid, "DETECTED" if res["detected"] else "missed (exit %s)" % r.returncode, ",".join(clauses)[:90]))
             print(rows[-1], flush=True)
     finally:
@@ -158,5 +161,9 @@ if __name__ == "__main__":
         if "--tier" in a:
             tier = a[a.index("--tier") + 1]
             a = [x for i, x in enumerate(a) if i not in (a.index("--tier"), a.index("--tier") + 1)]
-        sys.exit(cmd_run(a[1:], tier))
+        seed = None
+        if "--seed" in a:
+            seed = a[a.index("--seed") + 1]
+            a = [x for i, x in enumerate(a) if i not in (a.index("--seed"), a.index("--seed") + 1)]
+        sys.exit(cmd_run(a[1:], tier, seed))
     print(__doc__)
